@@ -99,6 +99,61 @@ PROPS = {
         "to MAX) buckets.",
         ["oc", "rel", "asan"], ["oc", "rel", "asan", "udp"],
     ),
+    "C05": P(
+        "exploration",
+        "The whole finite number spaces: all 65536 option numbers, all 65536 content-format ids (+ 6 larger), 256 code bytes "
+        "(class mapping, Display, set_code/get_code, wire byte, is_error), 4 types x 256 prior header bytes, 256 first header "
+        "bytes, observe values; compared with hand-transcribed IANA/RFC tables (cross-checked against the coap-numbers crate on "
+        "every run). distinct+non-trivial = distinct named registry entries / code bytes / header-field combinations confirmed.",
+        ["oc"], ["oc", "nostd"],
+    ),
+    "C06": P(
+        "exploration",
+        "Every u8 and u16 at every width, every two-byte window of u64 at every byte position, powers of two and neighbours; "
+        "decode of every byte string <= 2 (thorough 3) at all four widths and every string <= 10 over {00,01,FF}; text options: "
+        "all symbol sequences <= 4 and every byte string <= 2/3 vs str::from_utf8; typed Packet accessors over all lists <= 3 of "
+        "boundary values. distinct+non-trivial = distinct (width x encoded length x acceptance x leading-zero) buckets.",
+        ["oc", "rel"], ["oc", "rel", "nostd"],
+    ),
+    "C07": P(
+        "exploration",
+        "The stated product in full: 4 types x 4 versions x token length 0..8 x all 65536 message ids, through CoapResponse::new "
+        "and CoapRequest::from_packet, reply compared field by field and as wire image; apply_from_error over every response "
+        "code/None x 4 messages x 6 prepared-response shapes x CON/NON. distinct+non-trivial = distinct (type x version x token "
+        "length x body variant x mid boundary) and (code x shape x message) buckets.",
+        ["oc"], ["oc", "nostd"],
+    ),
+    "C13": P(
+        "exploration",
+        "The whole space of the type: num 0..=65535 x more x szx 0..=7 encode/decode/size; decode of every byte string <= 3 "
+        "bytes; BlockValue::new over num x size boundary products incl. every size 0..=8200 and powers of two to usize::MAX. "
+        "distinct+non-trivial = distinct (encoded length x more x szx x num>=4096) / (decision x shape) buckets.",
+        ["oc", "rel"], ["oc", "rel"],
+    ),
+    "C16": P(
+        "exploration",
+        "Writer -> parser identity: every value <= 4 (5) symbols over 13 structural / multi-byte symbols x {attr, attr_quoted} x 5 "
+        "positions x newline option; all one-link documents with <= 2 (3) attributes over 26 attribute choices x 8 targets; all "
+        "documents of <= 2 (3) links. distinct+non-trivial = distinct (document shape x per-value escaping features x newline) "
+        "buckets.",
+        ["oc"], ["oc", "nostd"],
+    ),
+    "C17": P(
+        "exploration",
+        "Every string <= 6 (8) over the property's 10-symbol alphabet through LinkFormatParser, every attribute iterator and "
+        "both unquoting paths under panic capture and iteration caps; Unquote::new on every string <= 6 (8) over 6 symbols; every "
+        "prefix of 260 writer-produced documents. distinct+non-trivial = distinct (links x attributes x quoted values x error) "
+        "buckets.",
+        ["oc"], ["oc", "nostd"],
+    ),
+    "C18": P(
+        "fault_enumeration",
+        "For each document x newline option: the fault-free run records the n sink calls; then every k < n x {fail call k only, "
+        "fail k and all later} (thorough: every pair k1<k2) - complete per document; oracle: sink content == fault-free text of "
+        "calls 0..k and final finish() is Err. distinct+non-trivial = distinct (fault mode x newline x fault position x document "
+        "size) buckets.",
+        ["oc"], ["oc", "nostd"],
+    ),
 }
 
 
